@@ -65,11 +65,18 @@ pub fn round_up(x: usize, a: usize) -> usize {
 
 const WORD: usize = std::mem::size_of::<usize>();
 
+/// Size of the reference count in front of the payload (learnt from the shim: the width of the
+/// atomic type triomphe operates on; a machine word unless a refactor chose otherwise).
+fn counter_width() -> usize {
+    triomphe_verif_rt::sim::COUNTER_WIDTH.load(std::sync::atomic::Ordering::Relaxed)
+}
+
 /// Layout of the whole block for a payload of the given size/alignment:
 /// (size, align, offset of the payload). Written independently of `Layout::extend`.
 pub fn arcinner(payload_size: usize, payload_align: usize) -> (usize, usize, usize) {
-    let align = WORD.max(payload_align);
-    let off = round_up(WORD, payload_align);
+    let cw = counter_width();
+    let align = cw.max(payload_align);
+    let off = round_up(cw, payload_align);
     let size = round_up(off + payload_size, align);
     (size, align, off)
 }
